@@ -1,13 +1,13 @@
 /-
   Driver ops of C20 (trace acceptance, tie A).
 
-  `["C20.trace", {"fixed": b, "E": n, "W": n, "D": n, "C": n, "H": n}, [[tick, name, args…], …]]`
+  `["C20.trace", {"fixed": b, "coreWatched": b, "E": n, "W": n, "D": n, "C": n, "H": n}, [[tick, name, args…], …]]`
      tick  = virtual time of the segment in 1/64 s; the driver inserts `delay (tick - now)` before it
      label = ["setStopFlag"] | ["scStartupBegin"] | ["scStartupEnd", o] | ["setStarted"] | ["ready"]
            | ["scWake"] | ["scWaitRootsEnd"] | ["scStopCore"] | ["scCoreStopped"] | ["scCleanupEnd", o]
            | ["vaultClosed"] | ["enter", root] | ["coreEnter"] | ["coreEnd", how]
            | ["rootStopping", root, fail] | ["rootEnd", root, how]
-           | ["subSpawn", i, kind] | ["subStopping", i, fail] | ["subGone", i] | ["subCancel", i] | ["withdraw", i] | ["subEnd", i, how]
+           | ["subSpawn", i, kind] | ["subStopping", i, fail] | ["subGone", i] | ["subCancel", i] | ["withdraw", i, ok] | ["subEnd", i, how]
            | ["workerStart", w, owner] | ["workerEnd", w, how] | ["daemonSpawn", d] | ["daemonExit", d]
            | ["waiterEnd"] | ["orphan"] | ["orphanEnd"] | ["act", actor] | ["rtStopRoots"] | ["rtCancel"] | ["rtHungWait"]
            | ["rtStopHung"] | ["rtCStopHung"] | ["rtExit", res] | ["end"] (only advances the clock)
@@ -24,6 +24,7 @@ open Kopf.C20
 
 def rootOf? : String → Option Root
   | "stopFlag" => some .stopFlag | "ultimate" => some .ultimate | "startupCleanup" => some .startupCleanup
+  | "coreWatcher" => some .coreWatcher
   | "daemonKiller" => some .daemonKiller | "poster" => some .poster | "admChain" => some .admChain
   | "admValidating" => some .admValidating | "admMutating" => some .admMutating | "admServer" => some .admServer
   | "resObserver" => some .resObserver | "nsObserver" => some .nsObserver | "orchestrator" => some .orchestrator
@@ -31,6 +32,7 @@ def rootOf? : String → Option Root
 
 def rootName : Root → String
   | .stopFlag => "stopFlag" | .ultimate => "ultimate" | .startupCleanup => "startupCleanup"
+  | .coreWatcher => "coreWatcher"
   | .daemonKiller => "daemonKiller" | .poster => "poster" | .admChain => "admChain"
   | .admValidating => "admValidating" | .admMutating => "admMutating" | .admServer => "admServer"
   | .resObserver => "resObserver" | .nsObserver => "nsObserver" | .orchestrator => "orchestrator"
@@ -67,7 +69,7 @@ inductive Obs where
   | lab (l : Label)
   | subSpawnAs (i : Nat) (k : SubKind)
   | workerStartAs (w : Nat) (o : Task)
-  | daemonSpawnAs (d : Nat)
+  | daemonSpawnAs (d : Nat) (coop : Bool)
   | «end»
 
 def obsOf? (xs : List Json) : Option Obs :=
@@ -95,11 +97,11 @@ def obsOf? (xs : List Json) : Option Obs :=
   | [.str "subStopping", i, .bool f] => do pure (.lab (.subStopping (← jNat? i) f))
   | [.str "subGone", i] => do pure (.lab (.subGone (← jNat? i)))
   | [.str "subCancel", i] => do pure (.lab (.subCancel (← jNat? i)))
-  | [.str "withdraw", i] => do pure (.lab (.withdraw (← jNat? i)))
+  | [.str "withdraw", i, .bool ok] => do pure (.lab (.withdraw (← jNat? i) ok))
   | [.str "subEnd", i, .str h] => do pure (.lab (.subEnd (← jNat? i) (← howOf? h)))
   | [.str "workerStart", w, o] => do pure (.workerStartAs (← jNat? w) (← taskOf? o))
   | [.str "workerEnd", w, .str h] => do pure (.lab (.workerEnd (← jNat? w) (← wsOf? h)))
-  | [.str "daemonSpawn", d] => do pure (.daemonSpawnAs (← jNat? d))
+  | [.str "daemonSpawn", d, .bool c] => do pure (.daemonSpawnAs (← jNat? d) c)
   | [.str "daemonExit", d] => do pure (.lab (.daemonExit (← jNat? d)))
   | [.str "waiterEnd"] => some (.lab .waiterEnd)
   | [.str "orphan"] => some (.lab .orphan)
@@ -171,9 +173,9 @@ def applyObs (cfg : Cfg) (s : State) : Obs → Except String State
     else match step cfg s (.workerStart o) with
       | some s' => .ok s'
       | none => .error "label-not-enabled"
-  | .daemonSpawnAs d =>
+  | .daemonSpawnAs d c =>
     if s.nDaemons ≠ d then .error "daemon-index-differs"
-    else match step cfg s .daemonSpawn with
+    else match step cfg s (.daemonSpawn c) with
       | some s' => .ok s'
       | none => .error "label-not-enabled"
 
@@ -188,7 +190,7 @@ def replay (cfg : Cfg) (s : State) (i : Nat) : List Json → Option Json
       else
         let s1? : Except String State :=
           if t = s.now then .ok s
-          else match step cfg s (.delay (t - s.now)) with
+          else match stepC cfg s (.delay (t - s.now)) with    -- the real code must be cooperative (`coopDelay`)
             | some s1 => .ok s1
             | none => .error "time-passes-while-an-instantaneous-step-is-pending-or-a-deadline-is-overrun"
         match s1? with
@@ -201,12 +203,13 @@ def replay (cfg : Cfg) (s : State) (i : Nat) : List Json → Option Json
 
 def cfgOf? (j : Json) : Option Cfg := do
   let fixed ← jBool? (← jField? j "fixed")
+  let cw ← jBool? (← jField? j "coreWatched")
   let e ← jNat? (← jField? j "E")
   let w ← jNat? (← jField? j "W")
   let d ← jNat? (← jField? j "D")
   let c ← jNat? (← jField? j "C")
   let h ← jNat? (← jField? j "H")
-  pure { fixed := fixed, E := e, W := w, D := d, C := c, H := h }
+  pure { fixed := fixed, coreWatched := cw, E := e, W := w, D := d, C := c, H := h }
 
 def handle : DrvHandler := fun op args =>
   match op, args with
